@@ -1,10 +1,10 @@
 SPECIFICATION Spec
 CONSTANTS
-  Fam = "beam"
-  NW = 2
-  HeadLeft = TRUE
+  Fam = "plain"
+  NW = 3
+  HeadLeft = FALSE
   G <- Gram
-  TagScores <- Scores013
+  TagScores <- Scores01
   DepScores <- Scores0
   KBestN = 1
   MaxStep = 1000
